@@ -289,7 +289,7 @@ Definition wr_end (top : bool) (n : node) (t : tbl) (st : rst) : R :=
 Definition single_dir (d : str) (n : node) (tok : token) (r : attr) : Prop :=
   n_tok n = Some tok /\ t_kind tok = KTag /\ a_name r = pfx ++ d /\
   filter (pref pfx) (t_attrs tok) = [r] /\
-  str_eqb (map to_lower (t_name tok)) (m_tag_prefix mgr ++ d_block) = false.
+  str_eqb (block_key to_lower (t_name tok)) (m_tag_prefix mgr ++ d_block) = false.
 Definition remove_only : node -> token -> attr -> Prop := single_dir d_remove.
 (* d triggers none of the suppression pre-checks of processTagStart *)
 Definition inert_dir (d : str) : Prop :=
